@@ -207,8 +207,15 @@ func init() {
 		}
 		src := r.Src(mx.Body)
 		w.Line("/-- mux write-out: header copy, WriteHeader(status), io.Copy(payload) in this order -/")
-		w.Line("def muxWriteOut : Bool := %s", Bool(strings.Contains(src,
-			"header := stdw.Header() for k, v := range resp.HTTPHeader() { header[k] = v } stdw.WriteHeader(resp.StatusCode()) respBodySize, _ := io.Copy(stdw, resp.GetPayload())")))
+		const woHead = "header := stdw.Header() for k, v := range resp.HTTPHeader() { header[k] = v } stdw.WriteHeader(resp.StatusCode()) respBodySize, "
+		woOK := false
+		if i := strings.Index(src, woHead); i >= 0 { // `respBodySize, <err or _> := io.Copy(stdw, resp.GetPayload())`
+			rest := src[i+len(woHead):]
+			if j := strings.Index(rest, " := io.Copy(stdw, resp.GetPayload())"); j >= 0 && !strings.ContainsAny(rest[:j], " ;{}") {
+				woOK = true
+			}
+		}
+		w.Line("def muxWriteOut : Bool := %s", Bool(woOK))
 		return nil
 	}})
 }
